@@ -3,7 +3,7 @@ C10 — property theorems (statements, short proofs from the lemmas of Proofs*.l
 All theorems quantify over every configuration (any number of items, any worker count, arbitrary finite
 user scripts, any position of a cancel / panic / context end) and over every schedule (`Reach`).
 -/
-import GoZero.C10.ProofsA
+import GoZero.C10.ProofsD
 namespace GoZero.C10
 
 /-! ### (b) at most `workers` mappers run concurrently -/
@@ -37,9 +37,23 @@ while somebody cancels or the context ends. -/
 theorem returns_expected_error (c : Cfg) (s : St) (h : Reach c s) (r : Res) (hr : result s = some r) :
     allowed c r = true := by
   have I := invC_reach h
+  have D := invD_reach h
   unfold result at hr
   split at hr
-  next r' hc => simp at hr; subst hr; exact I.cres r' (Or.inr (Or.inr hc))
+  next r' hc =>
+    simp at hr; subst hr
+    have h0 := I.cres r' (Or.inr (Or.inr hc))
+    simp only [allowed, h0, Bool.true_and]
+    cases r' with
+    | val v => simpa [refined] using (D.v2 v (Or.inr (Or.inr hc))).1
+    | err e =>
+      cases e with
+      | noOutput =>
+        have := (D.n3 (Or.inr (Or.inr hc))).1
+        simp only [refined, Bool.or_eq_true, List.isEmpty_iff]
+        rcases this with h | h | h | h <;> simp [h]
+      | _ => rfl
+    | panic p => rfl
   next => simp at hr
 
 /-- spelled out for errors: a cancel error was passed to `cancel` by a script of this call. -/
@@ -47,21 +61,77 @@ theorem cancel_error_was_passed (c : Cfg) (s : St) (h : Reach c s) (k : Nat)
     (hr : result s = some (.err (.user k))) :
     (∃ i, i < c.n ∧ UAct.cancel (some k) ∈ c.mscript i) ∨ UAct.cancel (some k) ∈ c.rscript := by
   have := returns_expected_error c s h _ hr
-  simp only [allowed, anyScript, anyMapper, Bool.or_eq_true, List.any_eq_true, List.mem_range,
-    List.contains_iff_mem] at this
+  simp only [allowed, allowed0, refined, Bool.and_true, anyScript, anyMapper, Bool.or_eq_true, List.any_eq_true,
+    List.mem_range, List.contains_iff_mem] at this
   exact this
 
 /-- a context error is returned only if the context can end. -/
 theorem deadline_only_if_context_ends (c : Cfg) (s : St) (h : Reach c s)
     (hr : result s = some (.err .deadline)) : c.ctxCan = true ∨ c.ctxPre = true := by
   have := returns_expected_error c s h _ hr
-  simpa [allowed] using this
+  simpa [allowed, allowed0, refined] using this
 
 /-- a re-raised mapper panic is a panic of that mapper's script. -/
 theorem reraised_panic_is_user_panic (c : Cfg) (s : St) (h : Reach c s) (i : Nat)
     (hr : result s = some (.panic (.mapper i))) : i < c.n ∧ UAct.panic ∈ c.mscript i := by
   have := returns_expected_error c s h _ hr
-  simpa [allowed, hasPanic] using this
+  simpa [allowed, allowed0, refined, hasPanic] using this
+
+/-! ### (c') the table for the schedule that happened (model side of `Spec.allowedAt`)
+
+The harness proves "an error was recorded before the reducer began to write" from its event history; in the
+model that moment is the guard of the reducer's first `Write` (`wSnap`), resp. the end of the reducer
+function (`eSnap`). -/
+
+/-- **A value is returned only if no error was recorded (and the context was not over) when the reducer
+began its first write**; the value is that first write. -/
+theorem value_only_if_no_error_before_the_write (c : Cfg) (s : St) (h : Reach c s) (v : Nat)
+    (hr : result s = some (.val v)) :
+    (writesOf c.rscript).head? = some v ∧ s.wSnap = some false := by
+  have D := invD_reach h
+  unfold result at hr
+  split at hr
+  next r' hc => simp at hr; subst hr; exact D.v2 v (Or.inr (Or.inr hc))
+  next => simp at hr
+
+/-- the snapshot means what it says: `some true` is only taken when an error is recorded or the context over. -/
+theorem wSnap_sound (c : Cfg) (s : St) (h : Reach c s) (hs : s.wSnap = some true) :
+    s.retErr ≠ none ∨ s.ctxDone = true := (invD_reach h).w1 hs
+
+/-- **ErrReduceNoOutput is returned only if no error was recorded when the reducer function ended.** -/
+theorem no_output_only_if_no_error_before_reducer_end (c : Cfg) (s : St) (h : Reach c s)
+    (hr : result s = some (.err .noOutput)) : s.eSnap = some false := by
+  have D := invD_reach h
+  unfold result at hr
+  split at hr
+  next r' hc => simp at hr; subst hr; exact (D.n3 (Or.inr (Or.inr hc))).2
+  next => simp at hr
+
+/-- **The first cancel wins**: once an error is recorded no later `cancel` (nor the caller's
+`cancel(DeadlineExceeded)`) replaces it. -/
+theorem first_cancel_wins (c : Cfg) (s s' : St) (a : Actor) (e : Err) (hs : step c s a = some s')
+    (he : s.retErr = some e) (h : Reach c s) : s'.retErr = some e := by
+  have ho : s.once ≠ 0 := by
+    intro h0
+    have hn := (invF_reach h).f5 h0
+    simp [hn] at he
+  exact retErr_stable hs ho he
+
+/-- **An item is dropped (taken from the source by a drain, never mapped) only after a fault**: some cancel
+has recorded its error, or a mapper panicked, or the context is over, or the reducer goroutine has finished. -/
+theorem dropped_item_means_fault (c : Cfg) (s : St) (h : Reach c s) (hd : s.dropped ≠ []) :
+    s.retErr ≠ none ∨ (∃ i, i < c.n ∧ UAct.panic ∈ c.mscript i) ∨ s.ctxDone = true ∨ s.rpc = .done := by
+  have F := invF_reach h
+  have I := invC_reach h
+  rcases F.f3 hd with h1 | h1 | h1 | h1
+  · exact Or.inl (I.once1 h1)
+  · have := F.f4 h1
+    simp only [anyMapper, List.any_eq_true, List.mem_range, hasPanic, List.contains_iff_mem] at this
+    exact Or.inr (Or.inl this)
+  · exact Or.inr (Or.inr (Or.inl h1))
+  · rcases I.finw h1 with h2 | h2
+    · exact Or.inl (I.once1 (by omega))
+    · exact Or.inr (Or.inr (Or.inr h2))
 
 /-! ### (a) conservation (every schedule, every fault placement) -/
 
